@@ -12,7 +12,7 @@ from hypothesis import strategies as st
 from .model import Ref, runs_of
 
 # ----------------------------------------------------------------------------- node universes
-INT_POOL = [0, 1, 2, 3, -1, 7, 10, -5, 42, 100]
+INT_POOL = [0, 1, 2, 3, -1, 7, 10, -5, 42, 100, -2, 1000, 2 ** 40, -300]     # incl. hash(-1) == hash(-2) and ints outside the small-int cache
 STR_POOL = ['a', 'b', 'c', 'A', '', 'é', 'n1', 'x y', 'ß', '0']
 SAFE_STR_POOL = ['a', 'b', 'c', 'A', 'n1', 'é', 'ß', 'zz', 'Q', 'k9', '0', '7', '10', '-1']     # incl. strings that look like ints
 TUPLE_POOL = [[1, 2], [2, 1], [0], [], ['a', 1], [1, 2, 3]]
@@ -24,6 +24,23 @@ def encode_node(n):
         return {"tuple": [encode_node(x) for x in n]}
     if isinstance(n, frozenset):
         return {"fset": sorted((encode_node(x) for x in n), key=repr)}
+    return n
+
+
+def fresh(n):
+    """An equal but distinct object wherever Python allows one (ints outside the small-int cache,
+    multi-character strings, non-empty tuples / frozensets): queries are made with such copies, so that
+    code comparing ids with `is` instead of `==` is exposed."""
+    if isinstance(n, bool) or n is None:
+        return n
+    if isinstance(n, int):
+        return int(str(n))
+    if isinstance(n, str):
+        return ''.join([c for c in n]) if len(n) > 1 else n
+    if isinstance(n, tuple):
+        return tuple(fresh(x) for x in n)
+    if isinstance(n, frozenset):
+        return frozenset(fresh(x) for x in n)
     return n
 
 
@@ -54,7 +71,7 @@ def universe(draw, kinds=('int', 'str', 'tuple', 'fset', 'mixed'), lo=3, hi=6):
     elif kind == 'fset':
         pool = [{"fset": p} for p in FSET_POOL]
     else:
-        pool = INT_POOL[:5] + STR_POOL[:5]
+        pool = [0, 1, 2, -1, 7, 1000] + ['1', '0', 'a', '', '-1', 'A']     # ints and strings, incl. ids that print alike
     n = min(n, len(pool))
     idx = draw(st.lists(st.integers(0, len(pool) - 1), min_size=n, max_size=n, unique=True))
     return [pool[i] for i in idx]
